@@ -1,5 +1,8 @@
-(* Model of dvc_data/index/diff.py (as of /repo bc9d16e): the three deciders, the breadth-first
-   `_diff`, `_detect_renames`, `diff`, and the flat dictionary specification [ref_diff].
+(* Model of dvc_data/index/diff.py (as of /repo bc9d16e): the breadth-first `_diff`,
+   `_detect_renames`, `diff`, and the flat dictionary specification [ref_diff].  The three deciders
+   `_diff_meta`, `_diff_hash_info`, `_diff_entry` are NOT modelled by hand: [visit] and
+   [classify_key] call the generated [diff_entry] of Gen/IDiff.v (re-translated from the source on
+   every run), over the generated records of Gen/PyTypes.v.
 
    Out of the model (stated in harness/props/c08.py ASSUMPTIONS): `with_unknown` / UNKNOWN
    propagation (DataIndexDirError can only be raised by lazy loading through a storage map,
